@@ -169,7 +169,7 @@ Definition gen_header_field (tracecount : Z) (m : list bool) (vals : list Z) (in
 Definition tracefield_cell (vals : list Z) (nx a b : Z) : Z := nth (Z.to_nat (a * nx + b)) vals 0.
 
 (* get_tracefield_values(field) for a field kept as a constant in the header template (heuristic detection: same value
-   v in the first and last trace): np.full(v), zeroed outside the population mask (D29 fix) *)
+   v in the first and last trace): np.full(v), zeroed outside the population mask (D30 fix) *)
 Definition tracefield_const (m : list bool) (v : Z) : list Z := map (fun b : bool => if b then v else 0) m.
 
 (* ---------------------------------------------------------------- header fields and reported axes *)
